@@ -113,9 +113,9 @@ func (e *Ev) UnmarshalJSON(b []byte) error {
 	return nil
 }
 
-func N(v int) Ev { return Ev{'N', v} }
+func N(v int) Ev  { return Ev{'N', v} }
 func E(id int) Ev { return Ev{'E', id} }
-func C() Ev      { return Ev{K: 'C'} }
+func C() Ev       { return Ev{K: 'C'} }
 
 // ScriptString renders a script compactly.
 func ScriptString(s []Ev) string {
@@ -164,6 +164,11 @@ func NewBarrier(n int) *Barrier { return &Barrier{n: int32(n)} }
 // goroutine that never arrives cannot wedge the others).
 func (b *Barrier) Wait() {
 	atomic.AddInt32(&b.ready, 1)
-	for spins := 0; atomic.LoadInt32(&b.ready) < b.n && spins < 2000000; spins++ {
+	// bounded: with more runnable goroutines than processors (sharded runs) a
+	// partner may not be scheduled at all while this one spins
+	for spins := 0; atomic.LoadInt32(&b.ready) < b.n && spins < 60000; spins++ {
+		if spins%2000 == 1999 {
+			runtime.Gosched()
+		}
 	}
 }
